@@ -52,6 +52,12 @@ type Spec struct {
 	DeriveRef bool
 	// SFiles: complete extra source files (name -> content) of the S package, e.g. hand-written corpus
 	SFiles map[string]string
+	// SHeaderDecl is appended to the header of every generated S file (e.g. `var _ Iter[int]` so that
+	// a file of pure consumers still uses the API import).
+	SHeaderDecl string
+	// NoTmp: the unoptimised stage is not needed (only C07 compares it): run the real Compile
+	// directly and fall back to the hook only to isolate a compile panic.
+	NoTmp bool
 	// Race: link the worker with the race detector (C14's free-running supplement)
 	Race bool
 }
@@ -63,15 +69,15 @@ type Reject struct {
 }
 
 type Meta struct {
-	Name        string            `json:"name"`
-	Programs    int               `json:"programs"`
-	Discarded   map[string]string `json:"discarded,omitempty"` // not type-correct as plain Go
-	Rejected    map[string]Reject `json:"rejected,omitempty"`
-	Unbuildable map[string]string `json:"unbuildable,omitempty"`
-	TmpUnbuild  map[string]string `json:"tmp_unbuildable,omitempty"`
-	Registry    []string          `json:"registry"`
-	HookDiffers []string          `json:"hook_differs,omitempty"`
-	Fatal       string            `json:"fatal,omitempty"`
+	Name        string             `json:"name"`
+	Programs    int                `json:"programs"`
+	Discarded   map[string]string  `json:"discarded,omitempty"` // not type-correct as plain Go
+	Rejected    map[string]Reject  `json:"rejected,omitempty"`
+	Unbuildable map[string]string  `json:"unbuildable,omitempty"`
+	TmpUnbuild  map[string]string  `json:"tmp_unbuildable,omitempty"`
+	Registry    []string           `json:"registry"`
+	HookDiffers []string           `json:"hook_differs,omitempty"`
+	Fatal       string             `json:"fatal,omitempty"`
 	Secs        map[string]float64 `json:"secs"`
 }
 
@@ -137,7 +143,7 @@ func TreeHash() string {
 	}
 	h := sha1.New()
 	hashFiles(h, core.Repo(), "go.mod", "go.sum", "*.go", "rewriter/*.go", "seq/*.go", "cmd/cogen/*.go")
-	hashFiles(h, core.Root(), "go.mod", "rt/*.go", "refco/*.go", "harness/*.go", "cmd/drv/*.go")
+	hashFiles(h, core.Root(), "go.mod", "rt/*.go", "refco/*.go", "harness/*.go", "cmd/drv/*.go", "pipeline/*.go", "deriveref/*.go")
 	io.WriteString(h, version)
 	treeHash = hex.EncodeToString(h.Sum(nil))[:16]
 	return treeHash
@@ -146,7 +152,7 @@ func TreeHash() string {
 func (s *Spec) key() string {
 	h := sha1.New()
 	io.WriteString(h, TreeHash())
-	fmt.Fprintf(h, "%s|%v|%v|%s|%s|%s|%d|%s|%v|%v|%v\n", s.Name, s.SImports, s.RImports, s.SExtra, s.RExtra, s.CoImport, s.PerFile, s.GoVer, s.NoRef, s.DeriveRef, s.Race)
+	fmt.Fprintf(h, "%s|%v|%v|%s|%s|%s|%d|%s|%v|%v|%v|%v|%s\n", s.Name, s.SImports, s.RImports, s.SExtra, s.RExtra, s.CoImport, s.PerFile, s.GoVer, s.NoRef, s.DeriveRef, s.Race, s.NoTmp, s.SHeaderDecl)
 	for _, k := range sortedKeys(s.SFiles) {
 		fmt.Fprintf(h, "%s\x00%s\n", k, s.SFiles[k])
 	}
@@ -306,6 +312,9 @@ func cutProgs(path string, bad map[string]bool) {
 	}
 	lines := strings.Split(string(b), "\n")
 	rs := declRanges(lines)
+	if len(rs) == 0 {
+		return // a helper file without programs
+	}
 	drop := make([]bool, len(lines))
 	left := 0
 	for id, rr := range rs {
@@ -479,7 +488,7 @@ func build(s *Spec, work string) (*Meta, error) {
 	os.WriteFile(filepath.Join(work, "go.mod"), []byte(gomod), 0o644)
 	copyFile(filepath.Join(core.Root(), "go.sum"), filepath.Join(work, "go.sum"), 0o644)
 
-	sHeader := "package src\n\n" + importBlock(append([]string{coImport, `"verif/rt"`}, s.SImports...))
+	sHeader := "package src\n\n" + importBlock(append([]string{coImport, `"verif/rt"`}, s.SImports...)) + s.SHeaderDecl
 	rHeader := "package ref\n\n" + importBlock(append([]string{`"verif/refco"`, `"verif/rt"`}, s.RImports...))
 	src, ref, out, tmp := filepath.Join(work, "src"), filepath.Join(work, "ref"), filepath.Join(work, "out"), filepath.Join(work, "tmp")
 	writeFiles(src, "src", sHeader, s.Progs, func(p Prog) string { return p.S }, perFile)
@@ -504,8 +513,10 @@ func build(s *Spec, work string) (*Meta, error) {
 	}
 	derived := false
 	for round := 0; ; round++ {
-		if s.DeriveRef && !derived && round > 0 {
-			// derive only once the S package type-checks
+		if left, _ := filepath.Glob(filepath.Join(src, "*.go")); len(left) == 0 {
+			// every program of the shard was dropped as not type-correct
+			lap("native_build")
+			return m, nil
 		}
 		_, stderr, code := run(work, 5*time.Minute, "go", append([]string{"build", "-gcflags=-e"}, pkgs...)...)
 		if code == 0 {
@@ -540,7 +551,20 @@ func build(s *Spec, work string) (*Meta, error) {
 
 	// 2. go-co through the verif hook: unoptimised stage kept, per-file panics isolated.
 	hookOut := filepath.Join(work, "out_hook")
-	stdout, stderr, code := run(work, 10*time.Minute, drvPath(), "hook", src, hookOut, tmp)
+	realDone := false
+	if s.NoTmp {
+		if _, _, code := run(work, 10*time.Minute, drvPath(), "real", src, out); code == 0 {
+			realDone = true
+		} else {
+			os.RemoveAll(out)
+			os.RemoveAll(out + "_tmp")
+		}
+	}
+	var stdout, stderr string
+	var code int
+	if !realDone {
+		stdout, stderr, code = run(work, 10*time.Minute, drvPath(), "hook", src, hookOut, tmp)
+	}
 	if code != 0 {
 		m.Fatal = "compiler failed outside any file: " + PanicSig(firstPanicLine(stderr), stderr)
 		if code == 124 {
@@ -548,7 +572,7 @@ func build(s *Spec, work string) (*Meta, error) {
 		}
 	}
 	evs := parseHook(stdout)
-	if len(evs) > 0 && m.Fatal == "" {
+	if !realDone && len(evs) > 0 && m.Fatal == "" {
 		// split the failing files into one file per program and try again
 		failing := map[string]bool{}
 		for _, e := range evs {
@@ -617,7 +641,7 @@ func build(s *Spec, work string) (*Meta, error) {
 	lap("goco_hook")
 
 	// 3. the real, unmodified Compile on what is left; its output is what gets executed.
-	if m.Fatal == "" {
+	if m.Fatal == "" && !realDone {
 		_, stderr, code = run(work, 10*time.Minute, drvPath(), "real", src, out)
 		if code != 0 {
 			m.Fatal = "rewriter.Compile fails where the hook entry point succeeded: " + PanicSig(firstPanicLine(stderr), stderr)
@@ -632,6 +656,26 @@ func build(s *Spec, work string) (*Meta, error) {
 		}
 	}
 	os.RemoveAll(hookOut)
+	if s.NoTmp {
+		os.RemoveAll(tmp)
+	}
+	if m.Fatal == "" {
+		// go-co writes only the files that use its API; plain files of the package are copied as they are
+		srcFiles, _ := filepath.Glob(filepath.Join(src, "*.go"))
+		for _, f := range srcFiles {
+			b, _ := os.ReadFile(f)
+			if strings.Contains(string(b), "\"github.com/goghcrow/go-co\"") {
+				continue
+			}
+			for _, d := range []string{out, tmp} {
+				if _, err := os.Stat(d); err == nil {
+					if _, err := os.Stat(filepath.Join(d, filepath.Base(f))); err != nil {
+						os.WriteFile(filepath.Join(d, filepath.Base(f)), b, 0o644)
+					}
+				}
+			}
+		}
+	}
 	lap("goco_real")
 	if m.Fatal != "" {
 		// every program of the shard is rejected with this signature
